@@ -241,6 +241,18 @@ def check(ctx):
             ctx.ob("SCOPE.callback-subclass.delegates", m_, f"{ci.name}.{mname} activates/deactivates through {want} (the nesting-aware context of Callback)", ok, "" if ok else "register()/unregister() have no notion of nesting: leaving an inner `with` deactivates a callback that an outer scope (or an explicit register()) had activated, and the outer exit raises KeyError")
     ctx.count("callback_subclass_contexts", n_sub)
     ctx.floor("callback_subclass_contexts", 4, "Profiler, ResourceProfiler (enter/exit each)")
+    # ---------------- round 4b (C05-m8): the initial ready list is built from a SET -- a key is made ready once
+    from ..lib import eqv as _e4
+    ssf4 = ctx.model.module("dask/local.py").func("start_state_from_dask")
+    ra4 = [n for n in ast.walk(ssf4) if isinstance(n, ast.Assign) and _e4(n.targets[0], "ready")]
+    ok = len(ra4) == 1 and isinstance(ra4[0].value, ast.Call) and _e4(ra4[0].value.func, "sorted") and isinstance(ra4[0].value.args[0], ast.Name)
+    if ok:
+        src4 = ra4[0].value.args[0].id
+        defs4 = [n for n in ast.walk(ssf4) if isinstance(n, ast.Assign) and any(isinstance(t, ast.Name) and t.id == src4 for t in n.targets)]
+        ok = bool(defs4) and all(_e4(d.value, "set()") for d in defs4)
+        apps4 = [n for n in ast.walk(ssf4) if isinstance(n, ast.Call) and isinstance(n.func, ast.Attribute) and isinstance(n.func.value, ast.Name) and n.func.value.id == src4]
+        ok = ok and bool(apps4) and all(c.func.attr == "add" for c in apps4)
+    ctx.ob("SET.ready.deduplicated", ra4[0] if ra4 else ssf4, "state['ready'] = sorted(<a set filled with .add>): a key reachable over two paths (pre-filled cache) is ready once", ok, "" if ok else "collected in a list a key can be ready twice: its pretask fires again after its posttask and the task is re-run")
 
 
 VARIANTS = [
